@@ -8,6 +8,7 @@ import Driver.Hub
 import Driver.Shutdown
 import Driver.Dot
 import Driver.Crash
+import Driver.Conc
 open Driver
 
 /-
@@ -26,5 +27,6 @@ def main (args : List String) : IO UInt32 := do
   | ["shutdown"] => runLoop (fun (_ : Unit) toks => ((), shutdownHandler toks)) ()
   | ["dot"] => runLoop Driver.Dot.step ()
   | ["crash"] => runLoop Driver.CrashMode.step Driver.CrashMode.init
+  | ["lin"] => runLoop Driver.ConcMode.step ()
   | _ => IO.eprintln s!"unknown mode {args}"; return 2
   return 0
